@@ -348,6 +348,51 @@ theorem from_local_classifies_fixed_rule (z : Zone) (l : Ltt) (last : Transition
     Classifies (offAt z) ℓ (z.find_local_time_type_from_local ℓ) :=
   composed_fixed' z l last ℓ hrule hl hs hsep hj hnb hr
 
+/-- the round trip with a fixed footer rule -/
+theorem roundtrip_fixed_rule (z : Zone) (l : Ltt) (last : Transition) (t : Int)
+    (hrule : z.rule = some (.fixed l)) (hl : z.transitions.getLast? = some last)
+    (hs : Sorted z.transitions) (hsep : WellSeparated z) (hj : JoinSeparated z)
+    (hnb : NoBoundary' z (typeAt z 0).off z.transitions (t + offAt z t)) (hr : InRange z z.transitions) :
+    offAt z t ∈ (z.find_local_time_type_from_local (t + offAt z t)).toList.map (·.off) :=
+  classifies_roundtrip _ _ _ (composed_fixed' z l last _ hrule hl hs hsep hj hnb hr) t rfl
+
+/-- the trivial zone shape: no transitions and a fixed rule (`TZ=UTC0`, `TZ=XXX-5:30`, the Etc/* files).
+No hypothesis at all: one type, every reading occurs exactly once.  (No transitions and NO rule is
+`from_local_classifies` with an empty table: all its hypotheses are trivially true, see the example.) -/
+theorem from_local_classifies_fixed_only (z : Zone) (l : Ltt) (ℓ : Int)
+    (hrule : z.rule = some (.fixed l)) (ht : z.transitions = []) :
+    z.find_local_time_type_from_local ℓ = .single l ∧ (∀ t, z.find_local_time_type t = some l) ∧
+    (∀ t, offAt z t = l.off) ∧ Classifies (offAt z) ℓ (z.find_local_time_type_from_local ℓ) := by
+  have e1 : z.find_local_time_type_from_local ℓ = .single l := by
+    unfold Zone.find_local_time_type_from_local; rw [hrule, ht]; rfl
+  have e2 : ∀ t, offAt z t = l.off := by
+    intro t; unfold offAt ltAt afterLast; rw [hrule, ht]; rfl
+  refine ⟨e1, ?_, e2, ?_⟩
+  · intro t; unfold Zone.find_local_time_type; rw [hrule, ht]; rfl
+  · rw [e1]; intro t; rw [e2 t]; omega
+
+theorem roundtrip_fixed_only (z : Zone) (l : Ltt) (t : Int)
+    (hrule : z.rule = some (.fixed l)) (ht : z.transitions = []) :
+    offAt z t ∈ (z.find_local_time_type_from_local (t + offAt z t)).toList.map (·.off) :=
+  classifies_roundtrip _ _ _ (from_local_classifies_fixed_only z l _ hrule ht).2.2.2 t rfl
+
+-- `TZ=XXX-5:30`
+example : Classifies (offAt ⟨[], [⟨19800, false, none⟩], [], some (.fixed ⟨19800, false, none⟩)⟩) 0
+    (Zone.find_local_time_type_from_local ⟨[], [⟨19800, false, none⟩], [], some (.fixed ⟨19800, false, none⟩)⟩ 0) :=
+  (from_local_classifies_fixed_only _ ⟨19800, false, none⟩ 0 rfl rfl).2.2.2
+
+-- a TZif file with one type, no transitions and no footer: `from_local_classifies` on the empty table
+example (o : Int) (ho : -2147483648 ≤ o ∧ o ≤ 2147483647) (ℓ : Int) :
+    Classifies (offAt ⟨[], [⟨o, false, none⟩], [], none⟩) ℓ
+      (Zone.find_local_time_type_from_local ⟨[], [⟨o, false, none⟩], [], none⟩ ℓ) :=
+  from_local_classifies _ ℓ rfl List.Pairwise.nil rfl trivial
+    ⟨fun i => by
+        unfold typeAt
+        match i with
+        | 0 => exact ho
+        | (n + 1) => simp [List.getD]; decide,
+      fun tr h => by cases h⟩
+
 /-- a zone that is a POSIX rule only (`TZ=EST5EDT,M3.2.0,M11.1.0`): the statement against the rule's
 step function over ALL years (not per calendar year) -/
 theorem from_local_classifies_rule_only (z : Zone) (a : Alt) (ℓ : Int) (hrule : z.rule = some (.alt a))
@@ -357,6 +402,15 @@ theorem from_local_classifies_rule_only (z : Zone) (a : Alt) (ℓ : Int) (hrule 
     (hℓ : -36028797018963968 ≤ ℓ ∧ ℓ ≤ 36028797018963968) :
     Classifies (offAt z) ℓ (z.find_local_time_type_from_local ℓ) :=
   rule_only' z a ℓ hrule ht hvS hvE hy hS hE hℓ
+
+/-- the round trip for a rule-only zone -/
+theorem roundtrip_rule_only (z : Zone) (a : Alt) (t : Int) (hrule : z.rule = some (.alt a))
+    (ht : z.transitions = []) (hvS : ValidDay a.dstStart) (hvE : ValidDay a.dstEnd) (hy : RuleYearly a)
+    (hS : a.std.off ≠ a.dst.off → t + offAt z t ≠ wallStart a (naiveYear (t + offAt z t)))
+    (hE : a.std.off ≠ a.dst.off → t + offAt z t ≠ wallEnd a (naiveYear (t + offAt z t)))
+    (hℓ : -36028797018963968 ≤ t + offAt z t ∧ t + offAt z t ≤ 36028797018963968) :
+    offAt z t ∈ (z.find_local_time_type_from_local (t + offAt z t)).toList.map (·.off) :=
+  classifies_roundtrip _ _ _ (rule_only' z a _ hrule ht hvS hvE hy hS hE hℓ) t rfl
 
 /-- non-vacuity of `RuleYearly`: `CST6CDT,J60,J300` is regular in every year -/
 theorem exRule_yearly : RuleYearly exRule := by
@@ -388,6 +442,13 @@ theorem usRule_yearly : RuleYearly usRule ∧ InsideYear usRule :=
   ⟨(ruleYearly_of_B usRule).mp (by decide +kernel), (insideYear_of_B usRule).mp (by decide +kernel)⟩
 theorem euRule_yearly : RuleYearly euRule ∧ InsideYear euRule :=
   ⟨(ruleYearly_of_B euRule).mp (by decide +kernel), (insideYear_of_B euRule).mp (by decide +kernel)⟩
+
+-- `TZ=EST5EDT,M3.2.0,M11.1.0`: the instant 2024-07-04 12:00 UTC comes back from its wall clock
+example : offAt ⟨[], [⟨-18000, false, none⟩], [], some (.alt usRule)⟩ 1720094400 ∈
+    (Zone.find_local_time_type_from_local ⟨[], [⟨-18000, false, none⟩], [], some (.alt usRule)⟩
+      (1720094400 + offAt ⟨[], [⟨-18000, false, none⟩], [], some (.alt usRule)⟩ 1720094400)).toList.map (·.off) :=
+  roundtrip_rule_only _ usRule 1720094400 rfl rfl (by unfold ValidDay usRule; decide) (by unfold ValidDay usRule; decide)
+    usRule_yearly.1 (fun _ => by decide) (fun _ => by decide) (by decide)
 
 -- a rule that is NOT yearly-regular is recognised as such: start/end order flips from year to year
 example : ¬ RuleYearly ⟨⟨0, false, none⟩, ⟨3600, true, none⟩, .mwd 6 2 0, 7200, .julian1 162, 7200⟩ :=
